@@ -179,6 +179,8 @@ static const char *const SPECIAL[] = {
     "n=2 s=0 f=1 arcs=0>1:ctl\x01x:1",
     "n=3 s=0 f=2 arcs=0>1:say\"q:1,1>2:back\\slash:1,1>2:a:1",
     "n=2 s=0 f=1 arcs=0>1:a:1,1>1:caf\xc3\xa9:1,0>1:ctl\x01x:1",
+    "n=2 s=0 f=1 arcs=0>1:goatakesabeenaiford:1",
+    "n=3 s=0 f=2 arcs=0>1:a:1,1>2:goatakesabeenaiford:1",
 };
 static char SPECBUF[sizeof SPECIAL / sizeof *SPECIAL][128];
 
